@@ -186,3 +186,45 @@ func makeC08Replays(t *testing.T) {
 		proto(model.Field{Name: "r", Type: model.Ref("Mdl", "Rec0")}))
 	writeReplay(t, "C08", "python-union-as-generic-arg", "c08", "union as a generic argument", C08Case{Kind: "model", Pkg: p, Compile: true, Manifest: man})
 }
+
+// TestMakeReplays3 (VERIF_MKREPLAYS=3): replays for five defects that were repaired before the replay
+// plumbing existed, so that each fix: commit has its regression case.
+func TestMakeReplays3(t *testing.T) {
+	if os.Getenv("VERIF_MKREPLAYS") != "3" {
+		t.Skip("set VERIF_MKREPLAYS=3")
+	}
+	man := "cpp:\n  sourcesOutputDir: ../out/cpp\n  overrideArrayHeader: verif_ndarray.h\n  generateHDF5: false\n  generateCMakeLists: false\npython:\n  outputDir: ../out/py\n"
+	// documentation comments with a trailing backslash / triple quotes
+	rec := &model.Def{Kind: model.DRecord, Name: "Rec", Comment: "ends with a backslash \\", Fields: []model.Field{
+		{Name: "a", Type: model.Prim("int32"), Comment: "backslash at end \\"}, {Name: "b", Type: model.Prim("string"), Comment: "triple \"\"\" quote and a \\ backslash"}}}
+	pr := &model.Def{Kind: model.DProtocol, Name: "Proto0", Comment: "protocol comment \"\"\" with quotes\\", Fields: []model.Field{{Name: "r", Type: model.Ref("Mdl", "Rec"), Comment: "step comment \\"}}}
+	writeReplay(t, "C08", "comment-trailing-backslash-and-triple-quotes", "c08", "documentation comments ending in a backslash / containing triple quotes break generated C++ / Python",
+		C08Case{Kind: "model", Pkg: onePkg(rec, pr), Manifest: man, Compile: true, Hostile: []string{"comment:backslash", "comment:triple-quote"}})
+	// tagged union with a null case: C++ and Python must agree on the form of null
+	u := &model.Type{Kind: model.KUnion, Cases: []*model.Type{nil, model.Prim("int32"), model.Prim("float32")}, Tags: []string{"", "int32", "float32"}}
+	c2 := RTCase{Pkg: onePkg(proto(model.Field{Name: "u", Type: model.Stream(u)})), Runs: []RTRun{{Proto: "Proto0", Steps: []value.StepValues{{Stream: true, Blocks: []int{3},
+		Items: []*value.Value{{K: value.Union, Case: 1, Items: []*value.Value{iv(7)}}, {K: value.Union, Case: 0}, {K: value.Union, Case: 2, Items: []*value.Value{value.NewFloat(1.5)}}}}}}}}
+	writeReplay(t, "C02", "cpp-ndjson-tagged-union-null", "c02", "the null case of a tagged union was written differently by C++ and Python", c2)
+	// stream of records: an omitted null field must not keep the value of the previous item
+	r2 := &model.Def{Kind: model.DRecord, Name: "Rec", Fields: []model.Field{{Name: "a", Type: model.Prim("int32")}, {Name: "o", Type: model.Optional(model.Prim("int32"))},
+		{Name: "nu", Type: &model.Type{Kind: model.KUnion, Cases: []*model.Type{nil, model.Prim("string"), model.Prim("bool")}, Tags: []string{"", "string", "bool"}}}}}
+	item := func(a, o int64, s string) *value.Value {
+		ov := &value.Value{K: value.Union, Case: 0}
+		if o != 0 {
+			ov = &value.Value{K: value.Union, Case: 1, Items: []*value.Value{iv(o)}}
+		}
+		nv := &value.Value{K: value.Union, Case: 0}
+		if s != "" {
+			nv = &value.Value{K: value.Union, Case: 1, Items: []*value.Value{sv(s)}}
+		}
+		return &value.Value{K: value.Record, Items: []*value.Value{iv(a), ov, nv}}
+	}
+	c3 := RTCase{Pkg: onePkg(r2, proto(model.Field{Name: "rs", Type: model.Stream(model.Ref("Mdl", "Rec"))})), Runs: []RTRun{{Proto: "Proto0", Steps: []value.StepValues{{Stream: true, Blocks: []int{2, 1},
+		Items: []*value.Value{item(1, 5, "x"), item(2, 0, ""), item(3, 0, "")}}}}}}
+	writeReplay(t, "C02", "cpp-ndjson-record-field-stale", "c02", "C++ NDJSON from_json left an omitted optional field at the previous item's value", c3)
+	// [string, date]: dates are JSON strings, so the union needs tags
+	u4 := &model.Type{Kind: model.KUnion, Cases: []*model.Type{model.Prim("string"), model.Prim("date")}, Tags: []string{"string", "date"}}
+	c4 := RTCase{Pkg: onePkg(proto(model.Field{Name: "u", Type: model.Stream(u4)})), Runs: []RTRun{{Proto: "Proto0", Steps: []value.StepValues{{Stream: true, Blocks: []int{2},
+		Items: []*value.Value{{K: value.Union, Case: 1, Items: []*value.Value{iv(19000)}}, {K: value.Union, Case: 0, Items: []*value.Value{sv("2022-01-08")}}}}}}}}
+	writeReplay(t, "C02", "union-string-date-untagged", "c02", "[string, date] was written untagged and a date read back as the string case", c4)
+}
